@@ -114,7 +114,8 @@ type linePart struct {
 
 // extractNonStringParts extracts parts of a line outside of string literals.
 //
-// Parses the line character by character, tracking single and double quoted strings.
+// Parses the line character by character, tracking single and double quoted strings
+// and back-quoted identifiers.
 // Returns slices of text that are not inside quotes, along with their starting
 // column positions in the original line.
 //
@@ -133,7 +134,7 @@ func extractNonStringParts(line string) []linePart {
 			break
 		}
 
-		if !inString && (ch == '\'' || ch == '"') {
+		if !inString && (ch == '\'' || ch == '"' || ch == '`') {
 			// Save current non-string part
 			if currentPart.Len() > 0 {
 				parts = append(parts, linePart{
@@ -223,7 +224,7 @@ func (r *RedundantWhitespaceRule) fixLine(line string) string {
 			break
 		}
 
-		if !inString && (ch == '\'' || ch == '"') {
+		if !inString && (ch == '\'' || ch == '"' || ch == '`') {
 			inString = true
 			stringChar = ch
 			result.WriteRune(ch)
